@@ -1,105 +1,163 @@
 (* SHA-512 and SHA-384, written from FIPS 180-4 (sections 4.1.3, 4.2.3, 5.1.2, 5.3.4, 5.3.5,
-   6.4, 6.5).  64-bit words are [N] values kept below 2^64; this is the plain transcription
-   of the standard and is meant for short inputs (keys, MACs): about 16 ms per 128-byte
-   block under vm_compute (64 KiB: 8.4 s). *)
+   6.4, 6.5).  A 64-bit word is a pair of 32-bit halves held in primitive integers (a
+   primitive integer has only 63 bits). *)
 From Kit Require Import Lib.Base.
 From Kit Require Import Crypto.Words.
+From Coq Require Import Uint63.
 
-Local Open Scope N_scope.
+Local Open Scope uint63_scope.
 
-Definition mask64 : N := 0xFFFFFFFFFFFFFFFF.
-Definition add64 (a b : N) : N := N.land (a + b) mask64.
-Definition rotr64 (x n : N) : N :=
-  N.lor (N.shiftr x n) (N.land (N.shiftl x (64 - n)) mask64).
-Definition shr64 (x n : N) : N := N.shiftr x n.
-Definition not64 (x : N) : N := N.lxor x mask64.
+Inductive w64 := W64 (hi lo : int).
+
+Definition xor64 (x y : w64) : w64 :=
+  let '(W64 a b) := x in let '(W64 c d) := y in W64 (a lxor c) (b lxor d).
+Definition and64 (x y : w64) : w64 :=
+  let '(W64 a b) := x in let '(W64 c d) := y in W64 (a land c) (b land d).
+Definition not64 (x : w64) : w64 := let '(W64 a b) := x in W64 (not32 a) (not32 b).
+Definition add64 (x y : w64) : w64 :=
+  let '(W64 a b) := x in let '(W64 c d) := y in
+  let lo := b + d in W64 ((a + c + (lo >> 32)) land mask32) (lo land mask32).
+
+(* right rotation / shift by 0 <= n < 64 *)
+Definition rotr64 (x : w64) (n : int) : w64 :=
+  let '(W64 a b) := x in
+  let '(a, b, n) := if n <? 32 then (a, b, n) else (b, a, n - 32) in
+  W64 (((a >> n) lor (b << (32 - n))) land mask32) (((b >> n) lor (a << (32 - n))) land mask32).
+Definition shr64 (x : w64) (n : int) : w64 :=      (* n < 32 *)
+  let '(W64 a b) := x in W64 (a >> n) (((b >> n) lor (a << (32 - n))) land mask32).
 
 (* section 4.1.3 *)
-Definition Ch64 (x y z : N) : N := N.lxor (N.land x y) (N.land (not64 x) z).
-Definition Maj64 (x y z : N) : N := N.lxor (N.lxor (N.land x y) (N.land x z)) (N.land y z).
-Definition Sigma0_512 (x : N) : N := N.lxor (N.lxor (rotr64 x 28) (rotr64 x 34)) (rotr64 x 39).
-Definition Sigma1_512 (x : N) : N := N.lxor (N.lxor (rotr64 x 14) (rotr64 x 18)) (rotr64 x 41).
-Definition sigma0_512 (x : N) : N := N.lxor (N.lxor (rotr64 x 1) (rotr64 x 8)) (shr64 x 7).
-Definition sigma1_512 (x : N) : N := N.lxor (N.lxor (rotr64 x 19) (rotr64 x 61)) (shr64 x 6).
+Definition Ch64 (x y z : w64) : w64 := xor64 (and64 x y) (and64 (not64 x) z).
+Definition Maj64 (x y z : w64) : w64 := xor64 (xor64 (and64 x y) (and64 x z)) (and64 y z).
+Definition Sigma0_512 (x : w64) : w64 := xor64 (xor64 (rotr64 x 28) (rotr64 x 34)) (rotr64 x 39).
+Definition Sigma1_512 (x : w64) : w64 := xor64 (xor64 (rotr64 x 14) (rotr64 x 18)) (rotr64 x 41).
+Definition sigma0_512 (x : w64) : w64 := xor64 (xor64 (rotr64 x 1) (rotr64 x 8)) (shr64 x 7).
+Definition sigma1_512 (x : w64) : w64 := xor64 (xor64 (rotr64 x 19) (rotr64 x 61)) (shr64 x 6).
 
 (* section 4.2.3 *)
-Definition K512 : list N :=
+Definition K512 : list w64 :=
   [
-   0x428a2f98d728ae22; 0x7137449123ef65cd; 0xb5c0fbcfec4d3b2f; 0xe9b5dba58189dbbc;
-   0x3956c25bf348b538; 0x59f111f1b605d019; 0x923f82a4af194f9b; 0xab1c5ed5da6d8118;
-   0xd807aa98a3030242; 0x12835b0145706fbe; 0x243185be4ee4b28c; 0x550c7dc3d5ffb4e2;
-   0x72be5d74f27b896f; 0x80deb1fe3b1696b1; 0x9bdc06a725c71235; 0xc19bf174cf692694;
-   0xe49b69c19ef14ad2; 0xefbe4786384f25e3; 0x0fc19dc68b8cd5b5; 0x240ca1cc77ac9c65;
-   0x2de92c6f592b0275; 0x4a7484aa6ea6e483; 0x5cb0a9dcbd41fbd4; 0x76f988da831153b5;
-   0x983e5152ee66dfab; 0xa831c66d2db43210; 0xb00327c898fb213f; 0xbf597fc7beef0ee4;
-   0xc6e00bf33da88fc2; 0xd5a79147930aa725; 0x06ca6351e003826f; 0x142929670a0e6e70;
-   0x27b70a8546d22ffc; 0x2e1b21385c26c926; 0x4d2c6dfc5ac42aed; 0x53380d139d95b3df;
-   0x650a73548baf63de; 0x766a0abb3c77b2a8; 0x81c2c92e47edaee6; 0x92722c851482353b;
-   0xa2bfe8a14cf10364; 0xa81a664bbc423001; 0xc24b8b70d0f89791; 0xc76c51a30654be30;
-   0xd192e819d6ef5218; 0xd69906245565a910; 0xf40e35855771202a; 0x106aa07032bbd1b8;
-   0x19a4c116b8d2d0c8; 0x1e376c085141ab53; 0x2748774cdf8eeb99; 0x34b0bcb5e19b48a8;
-   0x391c0cb3c5c95a63; 0x4ed8aa4ae3418acb; 0x5b9cca4f7763e373; 0x682e6ff3d6b2b8a3;
-   0x748f82ee5defb2fc; 0x78a5636f43172f60; 0x84c87814a1f0ab72; 0x8cc702081a6439ec;
-   0x90befffa23631e28; 0xa4506cebde82bde9; 0xbef9a3f7b2c67915; 0xc67178f2e372532b;
-   0xca273eceea26619c; 0xd186b8c721c0c207; 0xeada7dd6cde0eb1e; 0xf57d4f7fee6ed178;
-   0x06f067aa72176fba; 0x0a637dc5a2c898a6; 0x113f9804bef90dae; 0x1b710b35131c471b;
-   0x28db77f523047d84; 0x32caab7b40c72493; 0x3c9ebe0a15c9bebc; 0x431d67c49c100d4c;
-   0x4cc5d4becb3e42b6; 0x597f299cfc657e2a; 0x5fcb6fab3ad6faec; 0x6c44198c4a475817].
+   W64 0x428a2f98 0xd728ae22; W64 0x71374491 0x23ef65cd;
+   W64 0xb5c0fbcf 0xec4d3b2f; W64 0xe9b5dba5 0x8189dbbc;
+   W64 0x3956c25b 0xf348b538; W64 0x59f111f1 0xb605d019;
+   W64 0x923f82a4 0xaf194f9b; W64 0xab1c5ed5 0xda6d8118;
+   W64 0xd807aa98 0xa3030242; W64 0x12835b01 0x45706fbe;
+   W64 0x243185be 0x4ee4b28c; W64 0x550c7dc3 0xd5ffb4e2;
+   W64 0x72be5d74 0xf27b896f; W64 0x80deb1fe 0x3b1696b1;
+   W64 0x9bdc06a7 0x25c71235; W64 0xc19bf174 0xcf692694;
+   W64 0xe49b69c1 0x9ef14ad2; W64 0xefbe4786 0x384f25e3;
+   W64 0x0fc19dc6 0x8b8cd5b5; W64 0x240ca1cc 0x77ac9c65;
+   W64 0x2de92c6f 0x592b0275; W64 0x4a7484aa 0x6ea6e483;
+   W64 0x5cb0a9dc 0xbd41fbd4; W64 0x76f988da 0x831153b5;
+   W64 0x983e5152 0xee66dfab; W64 0xa831c66d 0x2db43210;
+   W64 0xb00327c8 0x98fb213f; W64 0xbf597fc7 0xbeef0ee4;
+   W64 0xc6e00bf3 0x3da88fc2; W64 0xd5a79147 0x930aa725;
+   W64 0x06ca6351 0xe003826f; W64 0x14292967 0x0a0e6e70;
+   W64 0x27b70a85 0x46d22ffc; W64 0x2e1b2138 0x5c26c926;
+   W64 0x4d2c6dfc 0x5ac42aed; W64 0x53380d13 0x9d95b3df;
+   W64 0x650a7354 0x8baf63de; W64 0x766a0abb 0x3c77b2a8;
+   W64 0x81c2c92e 0x47edaee6; W64 0x92722c85 0x1482353b;
+   W64 0xa2bfe8a1 0x4cf10364; W64 0xa81a664b 0xbc423001;
+   W64 0xc24b8b70 0xd0f89791; W64 0xc76c51a3 0x0654be30;
+   W64 0xd192e819 0xd6ef5218; W64 0xd6990624 0x5565a910;
+   W64 0xf40e3585 0x5771202a; W64 0x106aa070 0x32bbd1b8;
+   W64 0x19a4c116 0xb8d2d0c8; W64 0x1e376c08 0x5141ab53;
+   W64 0x2748774c 0xdf8eeb99; W64 0x34b0bcb5 0xe19b48a8;
+   W64 0x391c0cb3 0xc5c95a63; W64 0x4ed8aa4a 0xe3418acb;
+   W64 0x5b9cca4f 0x7763e373; W64 0x682e6ff3 0xd6b2b8a3;
+   W64 0x748f82ee 0x5defb2fc; W64 0x78a5636f 0x43172f60;
+   W64 0x84c87814 0xa1f0ab72; W64 0x8cc70208 0x1a6439ec;
+   W64 0x90befffa 0x23631e28; W64 0xa4506ceb 0xde82bde9;
+   W64 0xbef9a3f7 0xb2c67915; W64 0xc67178f2 0xe372532b;
+   W64 0xca273ece 0xea26619c; W64 0xd186b8c7 0x21c0c207;
+   W64 0xeada7dd6 0xcde0eb1e; W64 0xf57d4f7f 0xee6ed178;
+   W64 0x06f067aa 0x72176fba; W64 0x0a637dc5 0xa2c898a6;
+   W64 0x113f9804 0xbef90dae; W64 0x1b710b35 0x131c471b;
+   W64 0x28db77f5 0x23047d84; W64 0x32caab7b 0x40c72493;
+   W64 0x3c9ebe0a 0x15c9bebc; W64 0x431d67c4 0x9c100d4c;
+   W64 0x4cc5d4be 0xcb3e42b6; W64 0x597f299c 0xfc657e2a;
+   W64 0x5fcb6fab 0x3ad6faec; W64 0x6c44198c 0x4a475817].
 
-Inductive st8N := St8N (a b c d e f g h : N).
+Inductive st8w := St8w (a b c d e f g h : w64).
 
 (* section 5.3.5 / 5.3.4 *)
-Definition H512_init : st8N :=
-  St8N 0x6a09e667f3bcc908 0xbb67ae8584caa73b 0x3c6ef372fe94f82b 0xa54ff53a5f1d36f1
-       0x510e527fade682d1 0x9b05688c2b3e6c1f 0x1f83d9abfb41bd6b 0x5be0cd19137e2179.
-Definition H384_init : st8N :=
-  St8N 0xcbbb9d5dc1059ed8 0x629a292a367cd507 0x9159015a3070dd17 0x152fecd8f70e5939
-       0x67332667ffc00b31 0x8eb44a8768581511 0xdb0c2e0d64f98fa7 0x47b5481dbefa4fa4.
+Definition H512_init : st8w :=
+  St8w (W64 0x6a09e667 0xf3bcc908)
+       (W64 0xbb67ae85 0x84caa73b)
+       (W64 0x3c6ef372 0xfe94f82b)
+       (W64 0xa54ff53a 0x5f1d36f1)
+       (W64 0x510e527f 0xade682d1)
+       (W64 0x9b05688c 0x2b3e6c1f)
+       (W64 0x1f83d9ab 0xfb41bd6b)
+       (W64 0x5be0cd19 0x137e2179).
+Definition H384_init : st8w :=
+  St8w (W64 0xcbbb9d5d 0xc1059ed8)
+       (W64 0x629a292a 0x367cd507)
+       (W64 0x9159015a 0x3070dd17)
+       (W64 0x152fecd8 0xf70e5939)
+       (W64 0x67332667 0xffc00b31)
+       (W64 0x8eb44a87 0x68581511)
+       (W64 0xdb0c2e0d 0x64f98fa7)
+       (W64 0x47b5481d 0xbefa4fa4).
 
 (* Section 6.4.2 steps 1-3, fused: [w] is the sliding window W[t..t+15]. *)
-Fixpoint sha512_rounds (ks : list N) (w : list N) (s : st8N) : st8N :=
+Fixpoint sha512_rounds (ks : list w64) (w : list w64) (s : st8w) : st8w :=
   match ks with
   | [] => s
   | k :: ks' =>
       match w with
       | w0 :: w1 :: w2 :: w3 :: w4 :: w5 :: w6 :: w7 :: w8 :: w9 :: w10 :: w11 :: w12 :: w13
            :: w14 :: w15 :: _ =>
-          let '(St8N a b c d e f g h) := s in
-          let t1 := N.land (h + Sigma1_512 e + Ch64 e f g + k + w0) mask64 in
+          let '(St8w a b c d e f g h) := s in
+          let t1 := add64 (add64 (add64 (add64 h (Sigma1_512 e)) (Ch64 e f g)) k) w0 in
           let t2 := add64 (Sigma0_512 a) (Maj64 a b c) in
-          let wn := N.land (sigma1_512 w14 + w9 + sigma0_512 w1 + w0) mask64 in
+          let wn := add64 (add64 (add64 (sigma1_512 w14) w9) (sigma0_512 w1)) w0 in
           sha512_rounds ks'
             [w1; w2; w3; w4; w5; w6; w7; w8; w9; w10; w11; w12; w13; w14; w15; wn]
-            (St8N (add64 t1 t2) a b c (add64 d t1) e f g)
+            (St8w (add64 t1 t2) a b c (add64 d t1) e f g)
       | _ => s
       end
   end.
 
-Definition sha512_compress (H : st8N) (block : list N) : st8N :=
-  let '(St8N a b c d e f g h) := sha512_rounds K512 block H in
-  let '(St8N a0 b0 c0 d0 e0 f0 g0 h0) := H in
-  St8N (add64 a a0) (add64 b b0) (add64 c c0) (add64 d d0)
+Definition sha512_compress (H : st8w) (block : list w64) : st8w :=
+  let '(St8w a b c d e f g h) := sha512_rounds K512 block H in
+  let '(St8w a0 b0 c0 d0 e0 f0 g0 h0) := H in
+  St8w (add64 a a0) (add64 b b0) (add64 c c0) (add64 d d0)
        (add64 e e0) (add64 f f0) (add64 g g0) (add64 h h0).
 
 (* section 5.1.2: 0x80, zeros up to 112 mod 128, then the bit length on 128 bits *)
 Definition sha512_pad (msg : list N) : list N :=
   let len := length msg in
-  msg ++ [128] ++ zeros ((128 - (len + 17) mod 128) mod 128)
+  msg ++ [128%N] ++ zeros ((128 - (len + 17) mod 128) mod 128)
       ++ be64 (N.shiftr (lenN msg) 61) ++ be64 (N.shiftl (lenN msg) 3).
 
-Definition sha512_from (H0 : st8N) (msg : list N) : st8N :=
-  fold_left sha512_compress
-            (chunks 16 (map N_of_be (chunks 8 (sha512_pad msg)))) H0.
+Fixpoint w64s_of_bytes (bs : list N) : list w64 :=
+  match bs with
+  | a :: b :: c :: d :: e :: f :: g :: h :: rest =>
+      W64 (word_be a b c d) (word_be e f g h) :: w64s_of_bytes rest
+  | _ => []
+  end.
 
-Definition st8N_bytes (s : st8N) : list N :=
-  let '(St8N a b c d e f g h) := s in
-  be64 a ++ be64 b ++ be64 c ++ be64 d ++ be64 e ++ be64 f ++ be64 g ++ be64 h.
+Definition sha512_from (H0 : st8w) (msg : list N) : st8w :=
+  fold_left sha512_compress (chunks 16 (w64s_of_bytes (sha512_pad msg))) H0.
 
-Definition sha512 (msg : list N) : list N := st8N_bytes (sha512_from H512_init msg).
-Definition sha384 (msg : list N) : list N := firstn 48 (st8N_bytes (sha512_from H384_init msg)).
+Definition w64_bytes (x : w64) : list N :=
+  let '(W64 a b) := x in word_be_bytes a ++ word_be_bytes b.
+
+Definition st8w_bytes (s : st8w) : list N :=
+  let '(St8w a b c d e f g h) := s in
+  w64_bytes a ++ w64_bytes b ++ w64_bytes c ++ w64_bytes d
+    ++ w64_bytes e ++ w64_bytes f ++ w64_bytes g ++ w64_bytes h.
+
+Definition sha512 (msg : list N) : list N := st8w_bytes (sha512_from H512_init msg).
+Definition sha384 (msg : list N) : list N := firstn 48 (st8w_bytes (sha512_from H384_init msg)).
 
 Lemma sha512_length msg : length (sha512 msg) = 64%nat.
-Proof. unfold sha512. destruct (sha512_from H512_init msg). reflexivity. Qed.
+Proof.
+  unfold sha512. destruct (sha512_from H512_init msg) as [[] [] [] [] [] [] [] []]. reflexivity.
+Qed.
 
 Lemma sha384_length msg : length (sha384 msg) = 48%nat.
-Proof. unfold sha384. destruct (sha512_from H384_init msg). reflexivity. Qed.
+Proof.
+  unfold sha384. destruct (sha512_from H384_init msg) as [[] [] [] [] [] [] [] []]. reflexivity.
+Qed.
